@@ -804,6 +804,7 @@ def gen_case(rng, i):
 def run_subprocess_seeds(ctx, runner, res, cases, seeds):
     """zone cases again under other PYTHONHASHSEED values (psutil imported afresh in a child)"""
     n = 0
+    orders_seen = {}
     for seed in seeds:
         env = dict(os.environ, PYTHONHASHSEED=str(seed), PYTHONPATH=VERIF, PYTHONUTF8="1", PYTHONDONTWRITEBYTECODE="1")
         data = "".join(json.dumps(c) + "\n" for c in cases)
@@ -819,8 +820,10 @@ def run_subprocess_seeds(ctx, runner, res, cases, seeds):
         for c, io, mo, sp in runner.run(tagged, impl_outs=outs):
             record(res, c, io, mo, sp, "hashseed")
             res.count("hashseed:%d" % seed)
-            res.count("zone_order:" + json.dumps(io["orders"][:1]))
+            orders_seen.setdefault(json.dumps(c["zones"]), set()).add(json.dumps(io["orders"]))
             n += 1
+    res.extra["hashseed_zone_cases_with_more_than_one_order"] = sum(1 for v in orders_seen.values() if len(v) > 1)
+    res.extra["hashseed_distinct_orders_of_L16_witness"] = len(orders_seen.get(json.dumps(CORPUS[0]["zones"]), ()))
     return n
 
 
